@@ -72,6 +72,11 @@ def run(chk, repo):
     chk.doc("R27.3", "the error rows apply the configured safe state")
     chk.doc("R27.4", "reset")
     chk.doc("R27.5", "switch variables read as bools")
+    from . import c19
+    chk.doc("R19.4", "the coil and the switches are read from and written "
+                     "to the group's current frame on every access (shared "
+                     "with C19)")
+    c19.closures(chk, repo)
     sym = V + ".update"
     f = repo.func(sym)
     chk.analysed(sym)
